@@ -393,55 +393,83 @@ def run(cx, rep):
             if mc and mc[1] == "on" and mc[2] and tsast.s(mc[2][0]) == '"change"' and len(mc[2]) == 2:
                 cbs.append(mc[2][1])
     rep.ob("C14.6", "change-handler", len(cbs) == 1, "expected exactly one chokidar `change` handler in commandeer.ts, found %d" % len(cbs), cmd.rel)
-    for cb in cbs:
-        fn = cb
-        if cb["type"] == "Identifier":
-            al = {}
-            for n in tsast.walk(cmd.module):
-                if n["type"] == "VariableDeclarator" and n["id"].get("value") == cb["value"] and n.get("init") is not None:
-                    fn = n["init"]
-        if fn.get("type") not in ("ArrowFunctionExpression", "FunctionExpression"):
-            rep.ob("C14.6", "change-handler/body", False, "change handler is not a function literal", cmd.loc(cb))
-            continue
-        from rules import ts_common
-        ps = ts_common.fn_params(fn)
-        upd = [n for n in tsast.walk(fn) if n["type"] == "CallExpression" and tsast.s(n["callee"]).replace("?", "").endswith(".updateFileContent")]
-        # the rebuild, by role: a call of a local function value (a const arrow / function declared in the module or
-        # in an enclosing function, or a parameter of an enclosing function) that hands the same compiler object on
-        bobj = tsast.s(tsast.unparen(upd[0]["callee"])["object"] if upd and tsast.unparen(upd[0]["callee"]).get("type") == "MemberExpression" else upd[0]["callee"]["base"]["object"]).rstrip("?") if upd else None
-        local_fns = {}
-        enclosing_params = set()
+    def _resolve_handler(e, site, hops=0):
+        """function literals a handler expression can stand for: a const bound to one, or a parameter of the function
+        the registration sits in - then whatever its callers pass at that position"""
+        e = tsast.unparen(e)
+        if e.get("type") in ("ArrowFunctionExpression", "FunctionExpression"):
+            return [e]
+        if e.get("type") != "Identifier" or hops > 2:
+            return [e]
         for n in tsast.walk(cmd.module):
-            if n["type"] == "VariableDeclarator" and n["id"].get("type") == "Identifier" and n.get("init") is not None and n["init"].get("type") in ("ArrowFunctionExpression", "FunctionExpression"):
-                local_fns[n["id"]["value"]] = n["init"]
-            if n["type"] in ("ArrowFunctionExpression", "FunctionExpression", "FunctionDeclaration") and n is not fn and any(x is fn for x in tsast.walk(n)):
-                enclosing_params |= {p_ for p_ in ts_common.fn_params(n) if p_}
-        for fname_, d_ in cmd.functions.items():
-            local_fns[fname_] = d_
+            if n["type"] == "VariableDeclarator" and n["id"].get("value") == e["value"] and n.get("init") is not None:
+                return _resolve_handler(n["init"], n, hops + 1)
+        from rules import ts_common as _tc2
+        encl = [(nm, f_) for nm, f_ in [(d_["id"].get("value"), d_["init"]) for d_ in tsast.walk(cmd.module) if d_["type"] == "VariableDeclarator" and d_.get("init") is not None
+                                        and d_["init"].get("type") in ("ArrowFunctionExpression", "FunctionExpression")] + list(cmd.functions.items())
+                if any(x is site for x in tsast.walk(f_)) and e["value"] in [p_ for p_ in _tc2.fn_params(f_) if p_]]
+        if not encl:
+            return [e]
+        nm, f_ = min(encl, key=lambda t_: t_[1]["span"]["end"] - t_[1]["span"]["start"])
+        idx = _tc2.fn_params(f_).index(e["value"])
+        outs = []
+        for c_ in tsast.walk(cmd.module):
+            if c_["type"] == "CallExpression" and tsast.unparen(c_["callee"]).get("type") == "Identifier" and tsast.unparen(c_["callee"])["value"] == nm and idx < len(c_["arguments"]):
+                outs += _resolve_handler(c_["arguments"][idx]["expression"], c_, hops + 1)
+        return outs or [e]
+    cb_sites = {}
+    for n in tsast.walk(cmd.module):
+        if n["type"] == "CallExpression":
+            mc = tsast.method_call(n)
+            if mc and mc[1] == "on" and mc[2] and tsast.s(mc[2][0]) == '"change"' and len(mc[2]) == 2:
+                cb_sites[id(mc[2][1])] = n
+    for cb0 in cbs:
+      for cb in _resolve_handler(cb0, cb_sites.get(id(cb0))):
+          fn = cb
+          if fn.get("type") not in ("ArrowFunctionExpression", "FunctionExpression"):
+              rep.ob("C14.6", "change-handler/body", False, "change handler is not a function literal", cmd.loc(cb))
+              continue
+          from rules import ts_common
+          ps = ts_common.fn_params(fn)
+          upd = [n for n in tsast.walk(fn) if n["type"] == "CallExpression" and tsast.s(n["callee"]).replace("?", "").endswith(".updateFileContent")]
+          # the rebuild, by role: a call of a local function value (a const arrow / function declared in the module or
+          # in an enclosing function, or a parameter of an enclosing function) that hands the same compiler object on
+          bobj = tsast.s(tsast.unparen(upd[0]["callee"])["object"] if upd and tsast.unparen(upd[0]["callee"]).get("type") == "MemberExpression" else upd[0]["callee"]["base"]["object"]).rstrip("?") if upd else None
+          local_fns = {}
+          enclosing_params = set()
+          for n in tsast.walk(cmd.module):
+              if n["type"] == "VariableDeclarator" and n["id"].get("type") == "Identifier" and n.get("init") is not None and n["init"].get("type") in ("ArrowFunctionExpression", "FunctionExpression"):
+                  local_fns[n["id"]["value"]] = n["init"]
+              if n["type"] in ("ArrowFunctionExpression", "FunctionExpression", "FunctionDeclaration") and n is not fn and any(x is fn for x in tsast.walk(n)):
+                  enclosing_params |= {p_ for p_ in ts_common.fn_params(n) if p_}
+          for fname_, d_ in cmd.functions.items():
+              local_fns[fname_] = d_
 
-        def hands_compiler_on(f_):
-            return any(c_["type"] == "CallExpression" and any(tsast.s(a_["expression"]).rstrip("?") == bobj for a_ in c_["arguments"]) for c_ in tsast.walk(f_))
-        ex = []
-        for n in tsast.walk(fn):
-            if n["type"] == "CallExpression" and tsast.unparen(n["callee"]).get("type") == "Identifier":
-                cn_ = tsast.unparen(n["callee"])["value"]
-                if cn_ in enclosing_params or (cn_ in local_fns and bobj and hands_compiler_on(local_fns[cn_])):
-                    ex.append(n)
-        al = ts_common.local_aliases(fn)
-        ok = len(upd) == 1 and len(ex) == 1 and upd[0]["span"]["start"] < ex[0]["span"]["start"]
-        if ok:
-            a0, a1 = [tsast.s(a["expression"]) for a in upd[0]["arguments"]]
-            src = al.get(a1)
-            ok = a0 == ps[0] and src is not None and tsast.s(src).startswith("fs.readFileSync(%s" % ps[0])
-        rep.ob("C14.6", "change-handler/update-then-rebuild", ok,
-               "on a change of file p the handler must call updateFileContent(p, <content just read from p>) and then rebuild", cmd.loc(fn),
-               sample={"update_calls": len(upd), "rebuild_calls": len(ex)})
-        # nothing may leave the handler between the read and the update (an edit that is skipped keeps the stale module cached)
-        early = [n for n in tsast.walk_no_nested_fn(fn["body"]) if n["type"] in ("ReturnStatement", "ContinueStatement", "BreakStatement") and upd and n["span"]["start"] < upd[0]["span"]["start"]]
-        cond = [i for i in tsast.walk(fn) if i["type"] in ("IfStatement", "ConditionalExpression") and upd and any(x is upd[0] for x in tsast.walk(i))]
-        rep.ob("C14.6", "change-handler/unconditional", not early and not cond,
-               "the change handler can skip updateFileContent (%s): the session cache then keeps the module parsed from the old text and later rebuilds differ from a fresh process" % (
-                   "early exit before the update" if early else "update is conditional"), cmd.loc((early or cond or [fn])[0]))
+          def hands_compiler_on(f_):
+              return any(c_["type"] == "CallExpression" and any(tsast.s(a_["expression"]).rstrip("?") == bobj for a_ in c_["arguments"]) for c_ in tsast.walk(f_))
+          ex = []
+          for n in tsast.walk(fn):
+              if n["type"] == "CallExpression" and tsast.unparen(n["callee"]).get("type") == "Identifier":
+                  cn_ = tsast.unparen(n["callee"])["value"]
+                  if cn_ in enclosing_params or (cn_ in local_fns and bobj and hands_compiler_on(local_fns[cn_])):
+                      ex.append(n)
+          al = ts_common.local_aliases(fn)
+          ok = len(upd) == 1 and len(ex) == 1 and upd[0]["span"]["start"] < ex[0]["span"]["start"]
+          if ok:
+              a0, a1 = [tsast.s(a["expression"]) for a in upd[0]["arguments"]]
+              src = al.get(a1)
+              if src is None and len(upd[0]["arguments"]) == 2 and tsast.unparen(upd[0]["arguments"][1]["expression"]).get("type") == "CallExpression":
+                  src = tsast.unparen(upd[0]["arguments"][1]["expression"])     # read in place
+              ok = a0 == ps[0] and src is not None and tsast.s(src).startswith("fs.readFileSync(%s" % ps[0])
+          rep.ob("C14.6", "change-handler/update-then-rebuild", ok,
+                 "on a change of file p the handler must call updateFileContent(p, <content just read from p>) and then rebuild", cmd.loc(fn),
+                 sample={"update_calls": len(upd), "rebuild_calls": len(ex)})
+          # nothing may leave the handler between the read and the update (an edit that is skipped keeps the stale module cached)
+          early = [n for n in tsast.walk_no_nested_fn(fn["body"]) if n["type"] in ("ReturnStatement", "ContinueStatement", "BreakStatement") and upd and n["span"]["start"] < upd[0]["span"]["start"]]
+          cond = [i for i in tsast.walk(fn) if i["type"] in ("IfStatement", "ConditionalExpression") and upd and any(x is upd[0] for x in tsast.walk(i))]
+          rep.ob("C14.6", "change-handler/unconditional", not early and not cond,
+                 "the change handler can skip updateFileContent (%s): the session cache then keeps the module parsed from the old text and later rebuilds differ from a fresh process" % (
+                     "early exit before the update" if early else "update is conditional"), cmd.loc((early or cond or [fn])[0]))
     # the change event reports the path that was handed to `watch`, and the handler uses it as the KEY of the session
     # cache: it must be the very string the compiler asked to read (the parameter of the read callback), not a
     # canonicalised spelling of it (realpath, resolve, normalize): the cache entry under the compiler's spelling would
@@ -476,7 +504,8 @@ def run(cx, rep):
     rep.rule("C14.5", "JS caches keyed by file are invalidated by Bundler.updateFileContent")
     upd = bc.method_fn("updateFileContent")
     upd_txt = tsast.s(upd["body"]["stmts"][0].get("argument") or upd["body"]["stmts"][0].get("expression")) if upd["body"]["stmts"] else ""
-    touched = {n["value"] for n in tsast.walk(upd) if n["type"] == "Identifier"}
+    # (helpers of the module it calls are part of it: `rememberFileContent(name, content)` writing the cache)
+    touched = {n["value"] for n in tsast.walk_inl(bundler_ts, bc.name if hasattr(bc, "name") else None, upd, depth=2) if n["type"] == "Identifier"}
     fkc = js_file_keyed_caches(bundler_ts)
     for name in sorted(fkc):
         # keyed by what the cache is filled from (its name is the maintainers' business)
@@ -709,13 +738,25 @@ def js_file_keyed_caches(mod):
             continue
         if not js_written(mod, name):
             continue
-        # the function that writes it also calls fs.* or a resolve* helper
+        # the function that writes it - or, when the write sits in a small helper that is handed the value, a
+        # function that calls that helper - also calls fs.* or a resolve* helper
+        units = {}
         for fname, (k2, i2, d2) in mod.vars.items():
-            if i2 is None or i2["type"] not in ("ArrowFunctionExpression", "FunctionExpression"):
-                continue
+            if i2 is not None and i2["type"] in ("ArrowFunctionExpression", "FunctionExpression"):
+                units[fname] = i2
+        for fname, fn in mod.functions.items():
+            if fn.get("body") is not None:
+                units.setdefault(fname, fn)
+        for cname, c in mod.classes.items():
+            for mname, m in c.methods.items():
+                if m["function"].get("body") is not None:
+                    units["%s.%s" % (cname, mname)] = m["function"]
+        info = {}
+        for uname, fn in units.items():
             writes = False
             reads_host = set()
-            for n in tsast.walk(i2):
+            callees = set()
+            for n in tsast.walk(fn):
                 if n["type"] == "AssignmentExpression" and tsast.s(n["left"]).startswith(name + "["):
                     writes = True
                 if n["type"] == "CallExpression":
@@ -724,6 +765,17 @@ def js_file_keyed_caches(mod):
                         reads_host.add(cs)
                     elif cs.startswith("resolve"):
                         reads_host.add("resolve*")
-            if writes and reads_host:
-                out.setdefault(name, set()).update(reads_host)
+                    if tsast.unparen(n["callee"]).get("type") == "Identifier":
+                        callees.add(tsast.unparen(n["callee"])["value"])
+            info[uname] = (writes, reads_host, callees)
+        writers = {u for u, (w, _, _) in info.items() if w}
+        for depth in range(3):
+            for u in list(writers):
+                if info[u][1]:
+                    out.setdefault(name, set()).update(info[u][1])
+            if name in out:
+                break
+            writers = {u for u, (_, _, cs) in info.items() if cs & writers} - writers or set()
+            if not writers:
+                break
     return out
